@@ -551,7 +551,7 @@ V('M-opt-after-lookup', ['C17'], 'A4.contra', BE, "                if namedType.
   "                try:\n                    component = value[namedType.name]\n\n                except KeyError:\n                    raise error.PyAsn1Error('Component name \"%s\" not found in %r' % (\n                        namedType.name, value))\n\n                if namedType.isOptional and namedType.name not in value:\n                    if LOG:\n                        LOG('not encoding OPTIONAL component %r' % (namedType,))\n                    continue\n")
 
 # ---- wrapper (C11)
-V('M-kind-fastpath', ['C11'], 'A12.kinds', BD, "        substrate = asSeekableStream(substrate)\n\n        streamingDecoder = cls.STREAMING_DECODER(", "        if not isinstance(substrate, bytes):\n            substrate = asSeekableStream(substrate)\n\n        else:\n            substrate = asSeekableStream(substrate)\n\n        streamingDecoder = cls.STREAMING_DECODER(")
+V('M-kind-fastpath', ['C11'], 'A12.kinds', BD, "        substrate = asSeekableStream(substrate)\n\n        streamingDecoder = cls.STREAMING_DECODER(", "        if not isinstance(substrate, bytes):\n            substrate = asSeekableStream(substrate)\n\n        else:\n            substrate = io.BytesIO(substrate)\n\n        streamingDecoder = cls.STREAMING_DECODER(")
 V('M-no-octetstring-arm', ['C11'], 'A12.total', ST, "    elif isinstance(substrate, univ.OctetString):\n        return io.BytesIO(substrate.asOctets())\n", "")
 V('M-peek-no-seekback', ['C11'], 'A12.cache', ST, "        result = self.read(n)\n        self._cache.seek(-len(result), os.SEEK_CUR)\n        return result", "        result = self.read(n)\n        return result")
 
